@@ -127,13 +127,29 @@ def gen_calls(g, n, ids_hint=(), allow=(), kinds=None):
             txt = g.json_text(v).encode()
             if 'badjson' in allow and r.random() < 0.1:
                 txt, form = g.bad_json().encode(), r.choice(['s', 'b'])
-            calls.append(Call(k, txt, form, user_matchers(r)))
+            calls.append(Call(k, txt, form, failing_matchers(r, 'json') if 'badmatch' in allow and r.random() < 0.15 else user_matchers(r)))
         else:
             txt = g.yaml_text().encode()
             if 'badyaml' in allow and r.random() < 0.1:
                 txt = g.bad_yaml().encode()
-            calls.append(Call('yaml', txt, r.choice(['s', 'b']), user_matchers(r)))
+            calls.append(Call('yaml', txt, r.choice(['s', 'b']), failing_matchers(r, 'yaml') if 'badmatch' in allow and r.random() < 0.15 else user_matchers(r)))
     return calls
+
+
+def failing_matchers(r, fam):
+    """matchers at least one of which fails on every document (a path no generated document has, a Custom
+    callback that returns an error when the path happens to be the document root's first key is not needed):
+    the call is rejected after validation, before the snapshot stage - one failure, one `failed` outcome"""
+    import docs
+    miss = 'zz_no_such_member_zz' if fam == 'json' else '$.zz_no_such_member_zz'
+    ms = [docs.any_matcher([miss])]
+    if r.random() < 0.4:
+        ms.append(docs.type_matcher([miss + '2'], 'string'))
+    if r.random() < 0.3:
+        ms.insert(0, docs.custom_matcher(miss + '3', False, 'boom'))
+    if r.random() < 0.3:
+        ms.insert(r.randint(0, len(ms)), docs.user_matcher(r.random() < 0.5, False))
+    return tuple(ms)
 
 
 def user_matchers(r):
